@@ -1,10 +1,10 @@
 CONSTANTS
-  Shapes <- OneShape
+  Shapes <- UpTo4
   MaxSC = 2
   Cols <- ColsDef
   Excluded <- ExcludedDef
   DecoyKinds <- DecoyKindsDef
-  DecoyRule <- AnyDecoy
+  DecoyRule <- TwoDecoy
   ENFORCE_BIDS = TRUE
   DEEPER_WINS = TRUE
 SPECIFICATION Spec
